@@ -41,6 +41,18 @@ def gen(ctx):
         if rnd.random() < 0.3: s = b'/' + s
         if rnd.random() < 0.2: s = b'../' * rnd.randrange(1, 4) + s
         cases.append(s)
+    # deep descents followed by long climbs (resolvable '..' far below the deepest point; a bookkeeping of "recent components"
+    # that is bounded or goes stale shows only here): 1-3 phases of d names then m '..', sprinkled with '.' and empty components
+    for _ in range(6000 if ctx.quick() else 60000):
+        parts = []
+        for _ph in range(rnd.randrange(1, 4)):
+            d = rnd.choice([1, 2, 7, 8, 9, 10, 15, 16, 17, 31, 32, 33, 40]); m = rnd.choice([0, 1, d - 1, d, d, d + 1, max(0, d - 8), max(0, d - 9), rnd.randrange(0, d + 3)])
+            parts += [b'd%d' % i if rnd.random() < 0.8 else rnd.choice([b'.', b'', b'x.y', b'..z']) for i in range(d)] + [b'..'] * m
+            if rnd.random() < 0.3: parts.insert(rnd.randrange(len(parts) + 1), rnd.choice([b'.', b'']))
+        s = b'/'.join(parts)
+        if rnd.random() < 0.3: s = b'/' + s
+        if rnd.random() < 0.2: s += b'/'
+        cases.append(s)
     return cases, nexh, L
 
 def run(ctx):
